@@ -202,6 +202,10 @@ func isIntType(t types.Type) bool {
 	b, ok := t.Underlying().(*types.Basic)
 	return ok && b.Info()&types.IsInteger != 0
 }
+func isUnsignedType(t types.Type) bool {
+	b, ok := t.Underlying().(*types.Basic)
+	return ok && b.Info()&types.IsUnsigned != 0
+}
 func isFloatType(t types.Type) bool {
 	b, ok := t.Underlying().(*types.Basic)
 	return ok && b.Info()&types.IsFloat != 0
@@ -226,7 +230,10 @@ func (x *Extractor) fieldOf(v *RF, st types.Type, i int) *RF {
 	f := str.Field(i)
 	r := x.S.MakeFn("fld:"+tn+"."+f.Name(), v)
 	if isIntType(f.Type()) {
-		x.S.atoms[r.SingleAtom().ID].Int = true
+		if at := r.SingleAtom(); at != nil {
+			at.Int = true
+			at.Unsigned = isUnsignedType(f.Type())
+		}
 	}
 	return r
 }
@@ -314,8 +321,11 @@ func (fc *FC) Val(v ssa.Value) *RF {
 	r := fc.val(v)
 	delete(fc.busy, v)
 	if isIntType(v.Type()) {
-		if at := r.SingleAtom(); at != nil && at.Kind == "var" {
+		if at := r.SingleAtom(); at != nil && (at.Kind == "var" || strings.HasPrefix(at.Name, "fld:") || at.Name == "idx" || at.Name == "lookup") {
 			at.Int = true
+			if isUnsignedType(v.Type()) {
+				at.Unsigned = true
+			}
 		}
 	}
 	fc.memo[v] = r
